@@ -60,3 +60,7 @@ def bwriteInput (op : List String) : Option (Bytes × Nat) :=
       let l ← len.toNat?; let s ← seed.toNat?; let c ← c.toNat?
       pure (patBytes s l, c)
   | _ => none
+
+def metaVal (c : TCase) (key : String) : Option (List String) :=
+  (c.metas.find? (·.startsWith s!"meta {key} ")).map fun m => (m.splitOn " ").drop 2
+
